@@ -6,6 +6,7 @@ import (
 	"fmt"
 	"os"
 	"regexp"
+	"runtime/debug"
 	"testing"
 	"time"
 
@@ -19,13 +20,15 @@ func TestMain(m *testing.M) { kit.Main(m, "C10") }
 
 // Case is one session brought into State, then ended by Event.
 //
-// State: idle (SETTINGS exchanged) | mid (one stream open, data exchanged both
+// State: handshake (the relay has dialled the server; the client has not sent its
+// preface yet - only bad-preface and client-close apply) | idle (SETTINGS exchanged) | mid (one stream open, data exchanged both
 // ways) | blocked-c2s / blocked-s2c (DATA and trailers queued in the relay
 // behind the receiver's zero stream window) | backedup-c2s / backedup-s2c (the
 // receiver stopped reading while bulk data is relayed to it: the relay's
 // writer is stuck in a write and its output channel is full).
 //
-// Event: client-close | server-close (TLS close) | server-reset (TCP RST) |
+// Event: bad-preface (24 octets that are not the connection preface) | client-close
+// (in state handshake: after 10 of the 24 preface octets) | server-close (TLS close) | server-reset (TCP RST) |
 // client-write-fail (writes toward the client start failing) |
 // client-ack-write-fail (the client's receive path stalls and then dies exactly
 // while the relay returns window credit for DATA the client is uploading, and
@@ -46,8 +49,8 @@ type Case struct {
 var collect = os.Getenv("C10_COLLECT") != ""
 
 var (
-	states   = []string{"idle", "mid", "blocked-c2s", "blocked-s2c", "backedup-c2s", "backedup-s2c"}
-	events   = []string{"client-close", "server-close", "server-reset", "client-write-fail", "client-ack-write-fail", "client-proto-error", "server-proto-error", "closing"}
+	states   = []string{"handshake", "idle", "mid", "blocked-c2s", "blocked-s2c", "backedup-c2s", "backedup-s2c"}
+	events   = []string{"bad-preface", "client-close", "server-close", "server-reset", "client-write-fail", "client-ack-write-fail", "client-proto-error", "server-proto-error", "closing"}
 	variants = []string{"continuation-without-headers", "bad-padding", "settings-bad-length"}
 
 	h2RE = regexp.MustCompile(`github\.com/google/martian/v3/h2\.`)
@@ -57,6 +60,9 @@ var (
 // malformed frame from the side whose frames the relay has stopped reading
 // (its reader is parked on the full output channel) never reaches it.
 func valid(c Case) bool {
+	if (c.State == "handshake") != (c.Event == "bad-preface" || (c.State == "handshake" && c.Event == "client-close")) {
+		return false // before the preface only the client can end the session, and only then can the preface be wrong
+	}
 	if c.Event == "client-ack-write-fail" && c.State != "mid" && c.State != "blocked-s2c" {
 		return false // needs a stream the client may still upload on and a relay that is still reading
 	}
@@ -77,6 +83,9 @@ func normalise(c Case) Case {
 	}
 	if c.Event == "client-write-fail" {
 		c.Traffic = true // a failing write is only noticed when something is written
+	}
+	if c.State == "handshake" {
+		c.Traffic = false // there is no session to send on
 	}
 	return c
 }
@@ -211,7 +220,9 @@ func runOnce(c Case, bound time.Duration) (v kit.Verdict, slow bool) {
 		return kit.Failf("C10/setup/"+c.State+"/relay-did-not-connect", "%v", err), true
 	}
 	defer s.Teardown(bound)
-	if msg := arrange(c, s, bound); msg != "" {
+	if c.State == "handshake" {
+		// nothing to arrange: Open has seen the relay's upstream connection
+	} else if msg := arrange(c, s, bound); msg != "" {
 		return kit.Failf("C10/setup/"+c.State+"/state-not-reached", "%s within %v", msg, bound), true
 	}
 	if ret, perr := s.ProxyReturned(0); ret {
@@ -221,7 +232,12 @@ func runOnce(c Case, bound time.Duration) (v kit.Verdict, slow bool) {
 	// the terminating event
 	cl, sv := s.Client, s.Server
 	switch c.Event {
+	case "bad-preface":
+		s.Duplex.HarnessSide().Write([]byte("GET / HTTP/1.1\r\nHost: x\r\n\r\n"))
 	case "client-close":
+		if c.State == "handshake" {
+			s.Duplex.HarnessSide().Write([]byte(h2kit.Preface[:10]))
+		}
 		s.Duplex.HarnessSide().Close()
 	case "server-close":
 		s.ServerTLS().Close()
@@ -278,6 +294,17 @@ func runOnce(c Case, bound time.Duration) (v kit.Verdict, slow bool) {
 	if kit.Known(upSig) {
 		upBound = bound / 6
 	}
+	// A connection that is merely dropped is closed by its finalizer at some later
+	// garbage collection; that is not "closed when Proxy returns". Collections are
+	// held off until the upstream connection has been looked at.
+	gc := debug.SetGCPercent(-1)
+	restoreGC := func() {
+		if gc != -2 {
+			debug.SetGCPercent(gc)
+			gc = -2
+		}
+	}
+	defer restoreGC()
 	returned, _ := s.ProxyReturned(retBound)
 	if !returned {
 		return kit.Failf(retSig, "state %s, event %s%s: Config.Proxy had not returned %v after the event; relay goroutines: %s", c.State, c.Event, vsuffix(c), retBound, blockedAt()), true
@@ -298,6 +325,7 @@ func runOnce(c Case, bound time.Duration) (v kit.Verdict, slow bool) {
 			slow = true
 		}
 	}
+	restoreGC()
 	if len(v) > 0 {
 		// The goroutine reading from the connection that was left open is part of
 		// that defect. The harness now ends the server side itself; what remains
@@ -350,9 +378,12 @@ func blockedAt() string {
 	return out
 }
 
+var patience h2kit.Patience
+
 func run(c Case) kit.Verdict {
 	h2kit.ShortShrink()
-	v, slow := runOnce(c, kit.T())
+	bound, revalidate := patience.Bound()
+	v, slow := runOnce(c, bound)
 	if !slow {
 		return v
 	}
@@ -367,9 +398,15 @@ func run(c Case) kit.Verdict {
 	if allKnown {
 		return v
 	}
-	v2, slow2 := runOnce(c, 3*kit.T())
+	if !revalidate {
+		patience.Spent(bound)
+		return v
+	}
+	v2, slow2 := runOnce(c, 3*bound)
 	if !slow2 {
 		kit.Inconclusive("matrix")
+	} else if len(v2) > 0 {
+		patience.Confirm()
 	}
 	return v2
 }
